@@ -31,3 +31,12 @@ add("C19", "postcondition monitor on result labels (coordinate set/values/attrs/
 add("C11", "recording user function as probe inside apply_as_grid_ufunc; expected padded core blocks from signature + resolution + padding models",
     "The arrays actually received by a recording function are compared (unique-id data, order-agnostic over leading axes) with "
     "the model; options are supplied through every documented channel incl. definition-time != call-time values.", "2/C11")
+add("C05", "table-level halo oracle over unique-id data at xgcm.padding.pad on face-connected grids; start-up cross-check against the geometric model",
+    "Each padded array is compared cell by cell (corners excepted) with where the link table says the value comes from, "
+    "including partner component and sign for vector inputs; all 8 link kinds are counted in the evidence.", "2/C05")
+add("C03", "geometric reference-model postcondition on Grid.diff/interp/min/max over random D4 decompositions of an undivided global field",
+    "Results on every face are compared bit-exactly with the stencil applied to the geometric neighbours in the undivided field; "
+    "the table handed to xgcm is derived from the geometry, not copied from the implementation.", "2/C03")
+add("C04", "global C-grid field cut into rotated faces; expected values from the true edge values of each cell; divergence identity; vector-vs-scalar differential on simple grids",
+    "All rotation-only non-reversed topologies up to 3x2 are enumerated; results and the discrete divergence must equal those of the "
+    "undivided field bit-exactly.", "2/C04")
